@@ -2,6 +2,7 @@ package integrationdiagram
 
 import (
 	"regexp"
+	"sort"
 
 	"github.com/anz-bank/sysl/pkg/cmdutils"
 	"github.com/anz-bank/sysl/pkg/sysl"
@@ -31,7 +32,15 @@ func GenerateIntegrations(intgenParams *cmdutils.CmdContextParamIntgen,
 	app := model.GetApps()[intgenParams.Project]
 	of := cmdutils.MakeFormatParser(intgenParams.Output)
 	// Iterate over each endpoint within the selected project
-	for epname, endpt := range app.GetEndpoints() {
+	// In name order: when the output name does not depend on the view, the last view wins, and which one is last
+	// must not depend on map iteration order.
+	epnames := make([]string, 0, len(app.GetEndpoints()))
+	for epname := range app.GetEndpoints() {
+		epnames = append(epnames, epname)
+	}
+	sort.Strings(epnames)
+	for _, epname := range epnames {
+		endpt := app.GetEndpoints()[epname]
 		outputDir := of.FmtOutput(intgenParams.Project, epname, endpt.GetLongName(), endpt.GetAttrs())
 		if intgenParams.Filter != "" {
 			re := regexp.MustCompile(intgenParams.Filter)
